@@ -28,6 +28,7 @@ type xorFile struct {
 	ArchImpl string // GOARCH implied by the file name suffix ("" = none)
 	Defines  bool
 	HasASM   bool
+	funcs    map[string]*ast.FuncDecl
 }
 
 var knownArch = map[string]bool{"386": true, "amd64": true, "arm": true, "arm64": true, "ppc64": true, "ppc64le": true, "s390x": true, "wasm": true, "mips": true, "riscv64": true, "loong64": true, "mips64": true, "mipsle": true, "mips64le": true}
@@ -77,9 +78,10 @@ func readXorFiles() ([]xorFile, error) {
 				}
 			}
 		}
+		xf.funcs = map[string]*ast.FuncDecl{}
 		for _, d := range af.Decls {
-			if fd, ok := d.(*ast.FuncDecl); ok && fd.Recv == nil && fd.Name.Name == "XorBytes" && fd.Body != nil {
-				xf.Defines = true
+			if fd, ok := d.(*ast.FuncDecl); ok && fd.Recv == nil && fd.Body != nil {
+				xf.funcs[fd.Name.Name] = fd
 			}
 		}
 		base := strings.TrimSuffix(n, ".go")
@@ -90,7 +92,63 @@ func readXorFiles() ([]xorFile, error) {
 		out = append(out, xf)
 	}
 	sort.Slice(out, func(i, j int) bool { return out[i].Name < out[j].Name })
+	// the entry point may be a thin wrapper in an unconstrained file that hands its arguments to the function the
+	// constrained files define (XorBytes -> xorBytes): the partition rules then apply to that function
+	xorEntry, xorWrapperFile = "XorBytes", ""
+	var defs []int
+	for i := range out {
+		if out[i].funcs["XorBytes"] != nil {
+			defs = append(defs, i)
+		}
+	}
+	if len(defs) == 1 && out[defs[0]].Expr == nil && out[defs[0]].ArchImpl == "" {
+		if g := pureForward(out[defs[0]].funcs["XorBytes"]); g != "" {
+			xorEntry, xorWrapperFile = g, out[defs[0]].Name
+		}
+	}
+	for i := range out {
+		out[i].Defines = out[i].funcs[xorEntry] != nil
+	}
 	return out, nil
+}
+
+// xorEntry: the function whose definitions are partitioned by build constraints (XorBytes, or the function an
+// unconstrained XorBytes forwards to); xorWrapperFile: the file of that forwarding XorBytes.
+var xorEntry, xorWrapperFile = "XorBytes", ""
+
+// pureForward: the body is `return g(p1, ..., pn)` with the function's own parameters in order; returns g.
+func pureForward(fd *ast.FuncDecl) string {
+	if fd == nil || fd.Body == nil || len(fd.Body.List) != 1 {
+		return ""
+	}
+	rs, ok := fd.Body.List[0].(*ast.ReturnStmt)
+	if !ok || len(rs.Results) != 1 {
+		return ""
+	}
+	call, ok := rs.Results[0].(*ast.CallExpr)
+	if !ok || call.Ellipsis.IsValid() {
+		return ""
+	}
+	g, ok := call.Fun.(*ast.Ident)
+	if !ok {
+		return ""
+	}
+	var params []string
+	for _, fl := range fd.Type.Params.List {
+		for _, nm := range fl.Names {
+			params = append(params, nm.Name)
+		}
+	}
+	if len(params) != len(call.Args) {
+		return ""
+	}
+	for i, a := range call.Args {
+		id, ok := a.(*ast.Ident)
+		if !ok || id.Name != params[i] {
+			return ""
+		}
+	}
+	return g.Name
 }
 
 func runC20(c *Ctx) {
@@ -164,7 +222,40 @@ func runC20(c *Ctx) {
 	}
 
 	// R2 the active definition in this configuration
-	f := p.Func("utils/xor", "", "XorBytes")
+	f := p.Func("utils/xor", "", xorEntry)
+	if xorWrapperFile != "" {
+		// the exported entry must really be the forwarding function (checked on the type-checked program)
+		ow := c.Obl("R2w", "utils/xor.XorBytes", "the exported XorBytes hands its three arguments in order to the build-constrained implementation and returns its result", 1)
+		w := p.Func("utils/xor", "", "XorBytes")
+		okW := false
+		if w != nil && f != nil && len(w.Blocks) == 1 {
+			var call *ssa.Call
+			n := 0
+			for _, in := range w.Blocks[0].Instrs {
+				switch x := in.(type) {
+				case *ssa.Call:
+					call = x
+					n++
+				case *ssa.Return:
+					okW = n == 1 && call != nil && call.Call.StaticCallee() == f && len(x.Results) == 1 && x.Results[0] == ssa.Value(call) && len(call.Call.Args) == len(w.Params)
+					if okW {
+						for i, a := range call.Call.Args {
+							if a != ssa.Value(w.Params[i]) {
+								okW = false
+							}
+						}
+					}
+				case *ssa.DebugRef:
+				default:
+					n += 10
+				}
+			}
+		}
+		ow.Site(token.NoPos, "%s forwards to %s", xorWrapperFile, xorEntry)
+		if !okW {
+			ow.Fail(token.NoPos, "XorBytes in %s is not a pure forwarding call of %s", xorWrapperFile, xorEntry)
+		}
+	}
 	o = c.Obl("R2", "utils/xor.XorBytes@"+p.Cfg.String(), "the definition active in this configuration either is a pure delegation return subtle.XORBytes(dst, a, b), or satisfies the legacy structural rules (n = min, early return on 0, every arm gets (dst,a,b,n), element-wise loops over exactly [0,n))", 1)
 	if f == nil {
 		o.Undecide("XorBytes not found in configuration %s", p.Cfg)
@@ -349,9 +440,9 @@ func standaloneXor(name string, files []xorFile) (*ssa.Function, *token.FileSet,
 	if err != nil {
 		return nil, nil, nil, err
 	}
-	f := spkg.Func("XorBytes")
+	f := spkg.Func(xorEntry)
 	if f == nil {
-		return nil, nil, nil, fmt.Errorf("no XorBytes")
+		return nil, nil, nil, fmt.Errorf("no %s", xorEntry)
 	}
 	return f, fset, spkg, nil
 }
@@ -441,13 +532,18 @@ func legacyXorRules(o *Obligation, f *ssa.Function, fset *token.FileSet) {
 		type disp struct {
 			call *ssa.Call
 			idx  int
+			fn   *ssa.Function
 		}
 		var ds []disp
 		for idx, in := range pt.Instrs {
 			if cl, ok := in.(*ssa.Call); ok {
 				sc := cl.Call.StaticCallee()
+				if sc == nil && !cl.Call.IsInvoke() {
+					// the routine was chosen into a variable: the path knows which one
+					sc, _ = strip(pt.valueAt(cl.Call.Value, idx)).(*ssa.Function)
+				}
 				if sc != nil && sc.Pkg == f.Pkg && sc.Signature.Params().Len() == 4 {
-					ds = append(ds, disp{cl, idx})
+					ds = append(ds, disp{cl, idx, sc})
 				}
 			}
 		}
@@ -470,7 +566,7 @@ func legacyXorRules(o *Obligation, f *ssa.Function, fset *token.FileSet) {
 			continue
 		}
 		cl, idx := ds[0].call, ds[0].idx
-		sc := cl.Call.StaticCallee()
+		sc := ds[0].fn
 		args := cl.Call.Args
 		if got := pf.w.lin(pt.valueAt(args[3], idx)); !got.eq(min) {
 			o.Fail(token.NoPos, "%s: %s is not given n as its length (got %s)", pos(cl.Pos()), sc.Name(), got)
@@ -740,16 +836,21 @@ func xorLoops(o *Obligation, g *ssa.Function, pos func(token.Pos) string) {
 			return
 		}
 		// word loop [0, n/w) ; tail [n - n%w, n)
-		wb := word.bound.String()
-		tb := tail.init.String()
-		okW := word.init.eq(linConst(0)) && strings.Contains(wb, "(+1*n +0 / ")
-		okT := tail.bound.eq(nF) && strings.Contains(tb, "+1*n") && strings.Contains(tb, "-1*(+1*n +0 % ")
-		if okW && okT {
-			// same divisor
-			dw := wb[strings.Index(wb, "/ ")+2:]
-			dt := tb[strings.Index(tb, "% ")+2:]
-			if strings.SplitN(dw, ")", 2)[0] != strings.SplitN(dt, ")", 2)[0] {
-				okW = false
+		// the word bound is the single quantity n/W; the tail starts at W*(n/W), written n - n%W or (n/W)*W
+		okW := word.init.eq(linConst(0)) && word.bound.OK && word.bound.K == 0 && len(word.bound.Coef) == 1
+		okT := tail.bound.eq(nF)
+		if okW {
+			okW = false
+			for sym, cf := range word.bound.Coef {
+				var W int64
+				if cf == 1 && strings.HasPrefix(sym, "("+nF.String()+" / ") {
+					if _, err := fmt.Sscanf(strings.TrimSuffix(strings.TrimPrefix(sym, "("+nF.String()+" / "), ")"), "%d", &W); err == nil && W > 1 {
+						okW = true
+						if !normRem(tail.init).eq(word.bound.scale(W)) {
+							okT = false
+						}
+					}
+				}
 			}
 		}
 		if !okW || !okT {
